@@ -503,12 +503,12 @@ class TreeGen:
 
 @st.composite
 def expression_cases(draw, tier='quick', differentiable=False, min_free=0, n_formulas=1,
-                     with_weight=False, max_rows=None, logit=True):
+                     with_weight=False, max_rows=None, logit=True, sharing=True, min_rows=1):
     """A complete case: table, shared sub-trees, one or several root formulas, parameter values."""
     big = tier == 'thorough'
-    table, info = draw(tables(max_rows=max_rows or (12 if big else 6), weight=with_weight))
+    table, info = draw(tables(min_rows=min_rows, max_rows=max_rows or (12 if big else 6), weight=with_weight))
     g = TreeGen(draw, info, max_betas=draw(st.integers(max(1, min_free), 6)),
-                differentiable=differentiable, max_nodes=60 if big else 40, logit=logit)
+                differentiable=differentiable, max_nodes=60 if big else 40, logit=logit, sharing=sharing)
     depth = draw(st.integers(2, 6 if big else 5))
     roots = []
     for _ in range(n_formulas):
@@ -544,4 +544,6 @@ def expression_cases(draw, tier='quick', differentiable=False, min_free=0, n_for
                 overrides[name] = draw(real_values(-2.0, 2.0))
     case = dict(table=table, shared=g.shared, roots=roots, betas=overrides,
                 overloads=draw(st.booleans()), np_seed=draw(st.integers(0, 2**31 - 1)))
+    if with_weight:
+        case['weight_column'] = info['weight']
     return case
